@@ -92,6 +92,8 @@ structure JInv (c : Cfg) : Prop where
   ht : ∀ x ∈ heldE c.joins, x ∉ c.timers ∧ x ∉ c.pending
   /-- a held reply is not also retained as an orphan -/
   hro : ∀ x ∈ heldR c.joins, x ∉ c.orphans
+  /-- a join is on record only while its branches run -/
+  jne : evK c = [] → c.joins = []
 
 /-- conserved: the terminal notification is out exactly when nothing is left, `N` Task visits in all, no reply without
 its event -/
